@@ -10,16 +10,19 @@
                but whatever happens the slot stays typed
    The slot holds "unset" (None or the type's empty default), "typed" (a value of the declared type; for a list
    field every element of the element type) or -- never, in the intended design -- "foreign".
-   Dev: "StoreBeforeConvert" (a failing conversion leaves the raw value in the slot), "NoRangeCheck". *)
+   The empty default of a list / digest field is an OBJECT the caller may fill in place (rec.tags.append(..)); `dflt`
+   is what the next record built without a value for the field starts with -- by design always the empty default.
+   Dev: "StoreBeforeConvert" (a failing conversion leaves the raw value in the slot), "NoRangeCheck",
+        "SharedDefault" (one default object per record class: filling it in place fills every later record's). *)
 EXTENDS Naturals, Sequences, FiniteSets, TLC
 CONSTANTS MaxOps, Dev
 Classes == {"accept", "reject", "unspec_ok", "unspec_bad", "none"}   \* unspec_ok / unspec_bad: how the code happens to decide
-VARIABLES slot, lastFailed, prev, nops, allAccepted
-vars == <<slot, lastFailed, prev, nops, allAccepted>>
-Init == slot = "unset" /\ lastFailed = FALSE /\ prev = "unset" /\ nops = 0 /\ allAccepted = TRUE
+VARIABLES slot, lastFailed, prev, nops, allAccepted, dflt
+vars == <<slot, lastFailed, prev, nops, allAccepted, dflt>>
+Init == slot = "unset" /\ lastFailed = FALSE /\ prev = "unset" /\ nops = 0 /\ allAccepted = TRUE /\ dflt = "unset"
 Raises(c) == c = "unspec_bad" \/ (c = "reject" /\ "NoRangeCheck" \notin Dev)
 \* construct / assign / replace-style copy all funnel through the same coercion
-Offer(c) == /\ nops < MaxOps /\ nops' = nops + 1 /\ prev' = slot
+Offer(c) == /\ nops < MaxOps /\ nops' = nops + 1 /\ prev' = slot /\ UNCHANGED dflt
             /\ IF c = "none" THEN slot' = "unset" /\ lastFailed' = FALSE /\ UNCHANGED allAccepted
                ELSE IF Raises(c)
                     THEN /\ lastFailed' = TRUE /\ UNCHANGED allAccepted
@@ -27,9 +30,15 @@ Offer(c) == /\ nops < MaxOps /\ nops' = nops + 1 /\ prev' = slot
                     ELSE /\ lastFailed' = FALSE
                          /\ slot' = IF c = "reject" THEN "foreign" ELSE "typed"      \* an accepted unrepresentable value is not of the type
                          /\ allAccepted' = (allAccepted /\ c # "reject")
-Next == \E c \in Classes : Offer(c)
+\* the caller fills the record's empty default in place
+FillInPlace == /\ nops < MaxOps /\ nops' = nops + 1 /\ slot = "unset" /\ prev' = slot /\ slot' = "typed" /\ lastFailed' = FALSE
+               /\ dflt' = (IF "SharedDefault" \in Dev THEN "typed" ELSE dflt) /\ UNCHANGED allAccepted
+\* another record of the same type is built (or decoded, or copied) without a value for the field
+Fresh == /\ nops < MaxOps /\ nops' = nops + 1 /\ prev' = slot /\ slot' = dflt /\ lastFailed' = FALSE /\ UNCHANGED <<allAccepted, dflt>>
+Next == (\E c \in Classes : Offer(c)) \/ FillInPlace \/ Fresh
 Spec == Init /\ [][Next]_vars
 \* ---------------- C05 ----------------
 SlotsTyped == slot \in {"unset", "typed"}
 FailedAssignIsNoOp == lastFailed => slot = prev
+FreshStartsEmpty == dflt = "unset"
 =============================================================================
